@@ -47,4 +47,13 @@ theorem ofInt_xor (w : Nat) (a b : Int) :
   rw [BitVec.getLsbD_xor, getLsbD_ofInt, getLsbD_ofInt, getLsbD_ofInt, Py.xor_eq, Int.testBit_lxor]
   simp [hi]
 
+/-- narrowing a bit pattern given by an integer: keep the low bits of the same integer -/
+theorem setWidth_ofInt_of_le (wi w : Nat) (h : w ≤ wi) (a : Int) :
+    (BitVec.ofInt wi a).setWidth w = BitVec.ofInt w a := by
+  apply BitVec.eq_of_getLsbD_eq
+  intro i hi
+  rw [BitVec.getLsbD_setWidth, getLsbD_ofInt, getLsbD_ofInt]
+  have : i < wi := by omega
+  simp [hi, this]
+
 end Xdsl.BV
